@@ -120,6 +120,13 @@ Theorem C02_alt_glue_refuted :
   /\ ~ DecompGlue md_hex m_glue h_glue (s_lits d_glue) (s_pre d_glue) (s_post d_glue).
 Proof. exact alt_glue_refuted. Qed.
 
+Theorem C02_length_by_arrival_refuted :
+  Lens (flags_of md_hex) w_len h_len 0 = [8; 6; 4]
+  /\ model_scan d_len w_len 1000 = [(0, 6)]
+  /\ len_choice_ok [8; 6; 4] 6 = false
+  /\ kf_len_arrival d_len (Lens (flags_of md_hex) w_len h_len) w_len = true.
+Proof. exact length_by_arrival_refuted. Qed.
+
 Theorem C02_alt_first_post_pinned_refuted :
   In 0 (starts_spec (flags_of md_hex) m_pin h_pin)
   /\ model_scan (d_pin h_pin) m_pin 1000 = []
@@ -158,3 +165,4 @@ Print Assumptions C02_window_is_documented.
 Print Assumptions C02_start_position_refuted.
 Print Assumptions C02_alt_glue_refuted.
 Print Assumptions C02_alt_first_post_pinned_refuted.
+Print Assumptions C02_length_by_arrival_refuted.
